@@ -143,6 +143,9 @@ impl Module for M {
     }
 
     fn generate(&self, _pid: &str, tier: Tier, rng: &mut Rng, emit: &mut dyn FnMut(String)) {
+        // `faults.shape arc|sector ..`: trailing hook tokens for the model side (shapes.rs `with_hooks`; never read by `execute`)
+        let mut hooked = |s: String| emit(with_hooks(s));
+        let emit = &mut hooked;
         let quick = tier == Tier::Quick;
         let angles = [(0, 90_000), (30_000, 200_000), (-45_000, -300_000), (10_000, 400_000)];
         let shapes = shape_grid(if quick { 4 } else { 7 }, 3, &angles);
